@@ -76,6 +76,34 @@ def oracle(ck, tier, deep):
                 if np.abs(got - ref).max() > 1e-9 * max(1.0, np.abs(ref).max()):
                     ck.violation(dict(site="rbasex", clause="reg-zero"), dict(n=n, order=order, reg=list(reg), image=im.tolist()),
                                  f"rbasex reg={reg} differs from reg=None by {np.abs(got - ref).max():.3g}")
+    # … also when the weights blank out whole rings, off-centre origins and a reduced rmax (radii without data make the regularised
+    # expressions singular at strength 0 — repair F61: L2/diff raised LinAlgError, SVD inverted zero singular values)
+    for n in ([21] if not deep else [15, 21, 41]):
+        im = rng.random((n, n))
+        yy, xx = np.indices(im.shape)
+        for origin in ((n // 2, n // 2), (n // 2 - 2, n // 2 + 1)):
+            rr = np.hypot(yy - origin[0], xx - origin[1])
+            masks = {"ring": np.where((rr > n / 4 - 1.5) & (rr < n / 4 + 1.5), 0.0, 1.0), "outer": np.where(rr > n / 3, 0.0, 1.0),
+                     "centre": np.where(rr < 2.5, 0.0, 1.0)}
+            for mname, w in masks.items():
+                for order in (0, 2):
+                    kw = dict(origin=origin, order=order, weights=w)
+                    ref_im, ref_d = quiet(abel.rbasex.rbasex_transform, im, **kw)
+                    ref = ref_d.cos()
+                    for reg in (("L2", 0), ("diff", 0), ("SVD", 0), ("L2", 0.0)):
+                        ck.count(("S.reg0.rbasex-masked", n, mname, order, reg[0]), suite="S.equivalence")
+                        try:
+                            got_im, got_d = quiet(abel.rbasex.rbasex_transform, im, reg=reg, **kw)
+                            got = got_d.cos()
+                            bad = not (np.allclose(got, ref, rtol=0, atol=1e-9 * max(1.0, np.nanmax(np.abs(ref))), equal_nan=True)
+                                       and np.allclose(got_im, ref_im, rtol=0, atol=1e-9 * max(1.0, np.nanmax(np.abs(ref_im))), equal_nan=True))
+                            what = f"differs from reg=None by {np.nanmax(np.abs(got - ref)):.3g}" if bad else ""
+                        except Exception as e:
+                            bad, what = True, f"raises {type(e).__name__}: {e}"
+                        if bad:
+                            ck.violation(dict(site="rbasex", clause="reg-zero-masked"),
+                                         dict(n=n, origin=list(origin), mask=mname, order=order, reg=list(reg), image=im.tolist()),
+                                         f"rbasex reg={reg} with weights that blank out the {mname} radii (origin {origin}, order {order}) {what}")
     # … in whatever order the requests come within one session (a regulariser must not leave anything behind in the cached basis):
     # the zero-strength forms first, then no regularisation, then a forward transform, against values from a clean cache
     for n in ([11, 21] if not deep else [9, 11, 21, 41]):
